@@ -121,13 +121,17 @@ theorem take_append_drop_take (c : Bytes) (m k : Nat) :
 
 /-- with an intact body and a correct local prefix, a failed fetch leaves a correct, shorter prefix -/
 theorem fetch_take_prefix {content pre : Bytes} {o : Outcome} (m : Nat)
-    (hpre : pre <+: content) (hb : bodyOf content o = some (content.take m))
+    (hpre : pre <+: content) (hlt : pre.length < content.length)
+    (hb : bodyOf content o = some (content.take m))
     (hne : (fetch H content pre false o).err ≠ .ok) :
     (pre ++ (fetch H content pre false o).sent) <+: content ∧
     pre.length + (fetch H content pre false o).sent.length < content.length := by
   have hk : pre = content.take pre.length := List.prefix_iff_eq_take.mp hpre
   have hkl : pre.length ≤ content.length := hpre.length_le
   unfold fetch at hne ⊢
+  have hoff : ¬ (reachesOffsetCheck o = true ∧ 0 < pre.length ∧ content.length ≤ pre.length) := by
+    intro h; omega
+  rw [if_neg hoff] at hne ⊢
   rw [hb] at hne ⊢
   simp only [Bool.false_eq_true, if_false] at hne ⊢
   have hcat : pre ++ List.drop pre.length (content.take m) = content.take (max m pre.length) := by
@@ -175,7 +179,10 @@ theorem stepOK_prefix (f : Facts) (hpo : f.orderOK = true) (content : Bytes) (hn
       -- which outcome
       cases hb : bodyOf content o with
       | none =>
-        have : (fetch H content pre false o).sent = [] := by unfold fetch; rw [hb]
+        have : (fetch H content pre false o).sent = [] := by
+          unfold fetch; split
+          · rfl
+          · rw [hb]
         rw [this]; simpa using hpp
       | some full =>
         have hm : ∃ m, full = content.take m := by
@@ -185,7 +192,7 @@ theorem stepOK_prefix (f : Facts) (hpo : f.orderOK = true) (content : Bytes) (hn
           · exact ⟨content.length, by rw [List.take_length]; exact hb.symm⟩
         obtain ⟨m, hm⟩ := hm
         rw [hm] at hb
-        have := fetch_take_prefix H m hpp.1 hb hne
+        have := fetch_take_prefix H m hpp.1 hpp.2 hb hne
         rw [List.length_append]
         exact this
 
